@@ -78,6 +78,51 @@ class CycleCtx:
             self._rankmap = out
         return self._rankmap
 
+    def cap_status(self):
+        """app -> 'inside' | 'beyond' | 'edge' | 'unknown': is the instance
+        over its allocation's utilisation cap?  Computed by the harness from
+        the allocation as it declared it (reservation, cap) and the declared
+        demands, cumulated in the order the instances of the allocation
+        appear in this cycle's queue - not read from the rank the scheduler
+        gave the instance."""
+        if getattr(self, '_capstat', None) is not None:
+            return self._capstat
+        out = {}
+        eps = 2.220446049250313e-16
+        for _label, entries in self.rec.entries:
+            per_alloc = {}
+            for ent in entries:
+                per_alloc.setdefault(self.truth.alloc_of(ent[5]),
+                                     []).append(ent[5])
+            for apath, names in per_alloc.items():
+                info = self.truth.alloc_info(apath)
+                acc = [0.0, 0.0, 0.0]
+                for name in names:
+                    dem = self.truth.demand_of(name)
+                    snap = self.pre.get(name)
+                    if info is None or dem is None or snap is None:
+                        out[name] = 'unknown'
+                        continue
+                    for d in range(3):
+                        acc[d] += dem[d]
+                    maxu = info['maxu']
+                    if maxu is None:
+                        out[name] = 'inside'
+                    elif snap.priority == 0:
+                        out[name] = 'beyond'
+                    else:
+                        res = info['reserved']
+                        util = max((acc[d] - res[d]) / (res[d] + eps)
+                                   for d in range(3))
+                        if util > maxu - 1 + 1e-6:
+                            out[name] = 'beyond'
+                        elif util < maxu - 1 - 1e-6:
+                            out[name] = 'inside'
+                        else:
+                            out[name] = 'edge'
+        self._capstat = out
+        return out
+
 
 # ---------------------------------------------------------------------------
 # C01
@@ -505,6 +550,15 @@ def _identity_valid(ctx, name, snap):
     return 0 <= snap.identity < ctx.truth.group_count(group)
 
 
+def _within_cap(ctx, rank, name):
+    """Not over the utilisation cap, by the harness's own computation (the
+    scheduler's rank decides only when the harness cannot tell)."""
+    status = ctx.cap_status().get(name, 'unknown')
+    if status == 'unknown':
+        return rank.get(name, (UNPLACED,))[0] != UNPLACED
+    return status == 'inside'
+
+
 def check_c07(ctx):
     rank = ctx.rankmap()
     # an instance that lost its placement before the queue was run (server
@@ -532,7 +586,7 @@ def check_c07(ctx):
                 pre.server is not None and
                 ctx.pre_srv.get(pre.server, (None,))[0] == 'up' and
                 not pre.blacklisted and
-                rank.get(name, (UNPLACED,))[0] != UNPLACED and
+                _within_cap(ctx, rank, name) and
                 _identity_valid(ctx, name, pre) and
                 not pre.renew and
                 _valid_for(ctx, name, pre.server) is None)
@@ -583,7 +637,7 @@ def check_c08(ctx):
         # renewal path may move the instance; nothing in this snapshot sets
         # the flag outside the harness's one-shot renew op)
         eligible = (not pre.blacklisted and
-                    rank.get(name, (UNPLACED,))[0] != UNPLACED and
+                    _within_cap(ctx, rank, name) and
                     _identity_valid(ctx, name, pre) and
                     not pre.renew and
                     _valid_for(ctx, name, pre.server) is None)
